@@ -87,3 +87,9 @@ CASES += [
     t("state-vector conversion with numpy.multiply", SVE,
       "                rhot = Ut*self.data[i,:]", "                rhot = numpy.multiply(Ut, self.data[i,:])"),
 ]
+
+CASES += [
+    {"name": "density-matrix propagator keeps the Hamiltonian matrix from construction", "kind": "mutant", "rule": "C02-G", "edits": [
+        (P, "            self.dt = self.Odt\n            self.Nref = 1", "            self.dt = self.Odt\n            self.Nref = 1\n            self._HHcache = self.Hamiltonian.data", 1),
+        (P, "        HH = self._INIT_RWA()\n            \n        RR = self.RelaxationTensor.data", "        HH = self._HHcache\n            \n        RR = self.RelaxationTensor.data", 1)]},
+]
